@@ -470,6 +470,17 @@ func e18DiffCase(pkg string, seed uint64, n int, foreign string) Case {
 		if a, b := isClosed(sides[0].monObjs["monitor"].Done()), isClosed(sides[1].monObjs["monitor"].Done()); a != b || !a {
 			r.V("C20", "lifecycle-differs", "%s: after Close, monitor done typed=%v untyped=%v", pkg, a, b)
 		}
+		if n%2 == 1 {
+			// the caller's context ends: both controllers (and everything below) must stop
+			cancel()
+			for _, sd := range sides {
+				if !waitCh(sd.ctl.done, 10*time.Minute) {
+					r.V("C20", "lifecycle-differs", "%s: 10 virtual minutes after the context passed to the constructor was cancelled the %s controller is still running (the other side: done=%v)", pkg, sd.name, isClosed(sides[1].ctl.done) && isClosed(sides[0].ctl.done))
+					within(sd.ctl.close)
+				}
+			}
+			r.Add("context-cancel-lifecycle-checks", 1)
+		}
 		for _, sd := range sides {
 			if !within(sd.ctl.close) {
 				r.V("C12", "close-hang", "%s side Close() hung", sd.name)
